@@ -195,8 +195,8 @@ package graphql
 //@   at[C20] call IsTypeOf: assert arg0.Value == result && arg0.Context == eCtx.Context
 //@   at[C20] call executePlannedSelection#1: assert arg0 == eCtx && arg1 == fp.sub && arg2 == result && arg3 == returnType && arg4 == path
 // a field inside a fragment cycle is planned on demand, for the type of the value at hand
-//@   at[C20] call executePlannedSelection#2: assert arg0 == eCtx && old(fp.sub) == nil && old(fp.plannedOnDemand) && arg1 == lastresult("abstractAlternative") && arg2 == result && arg3 == returnType && arg4 == path
-//@   at[C20] call abstractAlternative: assert arg1 == fp && arg2 == returnType
+//@   at[C20] call executePlannedSelection#2: assert arg0 == eCtx && arg1 == lastresult("abstractAlternative") && arg2 == result && arg3 == returnType && arg4 == path
+//@   at[C20] call abstractAlternative: assert fp.sub == nil && fp.plannedOnDemand && arg1 == fp && arg2 == returnType
 
 //@ func completePlannedAbstractValue
 //@   assigns class:executionContext.Errors, class:FormattedError, class:M|*graphql.Object|*graphql.selectionPlan, class:graphql.selectionPlan, class:graphql.fieldPlan, class:M|string|int, class:M|string|bool, class:E|*graphql.fieldPlan, class:E|*ast.Field, class:M|string|interface, class:E|interface, class:graphql.fragmentGate, class:E|graphql.fragmentSpreadEdge, class:M|string|*graphql.fragmentGate, class:E|func, class:graphql.Plan.expanding, class:M|*ast.Field|bool
@@ -816,7 +816,7 @@ package graphql
 //@   props C09 C19
 //@   nosafety
 //@   requires p != nil && fp != nil
-//@   assigns class:graphql.Plan.expanding, class:M|*ast.Field|bool, class:graphql.selectionPlan, class:graphql.fieldPlan, class:graphql.fragmentGate, class:E|graphql.fragmentSpreadEdge, class:M|string|*graphql.fragmentGate, class:M|string|int, class:M|string|bool, class:E|*graphql.fieldPlan, class:E|*ast.Field, class:E|func, class:graphql.Plan, class:M|*ast.Field|bool
+//@   assigns class:graphql.Plan.expanding, class:M|*ast.Field|bool, class:graphql.selectionPlan, class:graphql.fieldPlan, class:graphql.fragmentGate, class:E|graphql.fragmentSpreadEdge, class:M|string|*graphql.fragmentGate, class:M|string|int, class:M|string|bool, class:E|*graphql.fieldPlan, class:E|*ast.Field, class:E|func
 //@   loop 1 invariant forall j in 0..rangeindex+1: !p.expanding[fp.fieldASTs[j]]
 //@   loop 2 invariant forall j in 0..rangeindex+1: p.expanding[fp.fieldASTs[j]]
 //@   loop 2 invariant fp.fieldASTs == old(fp.fieldASTs)
